@@ -87,6 +87,11 @@ def bins(start, stop, fmt="gff", one=True):
         This specifies 1-based start coords (gff) or 0-based start coords (bed)
     """
 
+    # Convert to the 0-based first and last position covered by the interval: BED is 0-based half-open,
+    # GFF is 1-based closed, so in both conventions the last covered position is stop - 1.
+    start = start - COORD_OFFSETS[fmt]
+    stop = stop - 1
+
     # For very large coordinates, return 1 which is "somewhere on the
     # chromosome".
     if start >= MAX_CHROM_SIZE or stop >= MAX_CHROM_SIZE:
@@ -113,7 +118,7 @@ def bins(start, stop, fmt="gff", one=True):
         else:
             return {1}
 
-    start = (start - COORD_OFFSETS[fmt]) >> FIRST_SHIFT
+    start = start >> FIRST_SHIFT
     stop = stop >> FIRST_SHIFT
 
     # We always at least fit within the chrom, which is bin 1.
